@@ -813,3 +813,34 @@ def lazy_operands_typed(run, R="TAB-op"):
         why = "the value of the %s operand is not tested for being a boolean (with an error for any other type)%s" % ("left" if not left else "right", " before the right operand is evaluated" if not left else "")
     run.check(ok, R, R + "|lazy|operands-typed", f.loc(), "both operands of `||` / `&&` are tested for being booleans; the left one before the right one is evaluated",
               "eval_with_ctx, lazy operators: %s: `5 || true` or `\"x\" && false` evaluate to the right operand instead of failing with `invalid argument type to operator`" % why)
+
+
+def continuation_same_line(run, R="TAB-op"):
+    """an expression ends with its line: the two places where the expression parser goes on after a complete operand - another
+    binary operator (parse_binary_ops) and another `.name` of a dotted name (parse_variable) - first ask the walker whether a line
+    break comes next, inside the loop, on every round.  Otherwise `1 + 2` followed by a line `-3` is read as `1 + 2 - 3`, and a
+    name at the end of a line swallows the `.label:` declared on the next one"""
+    from mir import natural_loop
+    n, bad = 0, []
+    for name in ("ExpressionParser::<'a, 'src>::parse_binary_ops", "ExpressionParser::<'a, 'src>::parse_variable"):
+        f = run.anchor(R, name)
+        if f is None:
+            continue
+        loops = []
+        for h in sorted(f.reachable()):
+            lp = natural_loop(f, h)
+            if lp:
+                loops.append(lp)
+        lbs = [bi for bi, t in f.calls() if (t.get("resolved") or t.get("callee") or "").endswith("::next_linebreak")]
+        for bi, t in f.calls():
+            if not re.search(r"Walker::<'src>::maybe_expect$", t.get("resolved") or t.get("callee") or ""):
+                continue
+            inside = [lp for lp in loops if bi in lp]
+            if not inside:
+                continue
+            n += 1
+            outer = max(inside, key=len)
+            if not any(l in outer and f.dominates(l, bi) for l in lbs):
+                bad.append("%s (%s)" % (f.loc(t["span"]), name.rsplit("::", 1)[-1]))
+    run.check(n >= 3 and not bad, R, R + "|continuation|same-line", "-", "every continuation of an expression (next operator, next `.name`) is preceded by a line-break test in the same round (%d site(s))" % n,
+              "the expression parser continues an expression without asking for a line break first, or asks only once before its loop (%s): an operator or a dotted name at the start of the next line is taken as part of the expression on this line" % (", ".join(bad) or "continuation sites not found"))
